@@ -661,6 +661,11 @@ impl Axecutor {
         let mut start: u64 = 0x1000;
 
         loop {
+            #[cfg(ax_verif)]
+            if crate::verif::fuel_exhausted() {
+                return Err(AxError::from("ax_verif: retry-loop budget exhausted"));
+            }
+
             if start >= 0x7fff_ffff_ffff_ffff {
                 return Err(AxError::from(
                     "Could not find a suitable memory start address",
@@ -686,6 +691,11 @@ impl Axecutor {
         let mut start: u64 = 0x1000;
 
         loop {
+            #[cfg(ax_verif)]
+            if crate::verif::fuel_exhausted() {
+                return Err(AxError::from("ax_verif: retry-loop budget exhausted"));
+            }
+
             if start >= 0x7fff_ffff_ffff_ffff {
                 return Err(AxError::from(
                     "Could not find a suitable memory start address",
@@ -710,6 +720,11 @@ impl Axecutor {
         let mut stack_start: u64 = 0x1000;
 
         loop {
+            #[cfg(ax_verif)]
+            if crate::verif::fuel_exhausted() {
+                return Err(AxError::from("ax_verif: retry-loop budget exhausted"));
+            }
+
             if stack_start >= 0x7fff_ffff_ffff_ffff {
                 return Err(AxError::from(
                     "Could not find a suitable stack start address",
@@ -818,6 +833,11 @@ impl Axecutor {
 
         let mut stack_start: u64 = 0x1000;
         loop {
+            #[cfg(ax_verif)]
+            if crate::verif::fuel_exhausted() {
+                return Err(AxError::from("ax_verif: retry-loop budget exhausted"));
+            }
+
             if stack_start >= 0x7fff_ffff_ffff_ffff {
                 return Err(AxError::from(
                     "Could not find a suitable stack start address",
